@@ -373,7 +373,14 @@ func (x *faultExec) Exec(a []string) string {
 		}
 		return "ok"
 	}
-	return persistOp(x.e, a)
+	out := persistOp(x.e, a)
+	if a[0] == "rec" {
+		return "ok" // histories with import / removal: observations are compared inside the sweeps (twin) only
+	}
+	if (a[0] == "importstep" || a[0] == "removerun") && out == "noop" {
+		return "ok"
+	}
+	return out
 }
 
 var _ = massutil.AddressClassWitnessV0
